@@ -47,6 +47,8 @@ class Scenario:
         self.n = n
         self.blobs = []          # dicts: cls, size, hash, sd (hash or None)
         self.dsm = DiskSpaceManager(self.env.config, self.env.storage, self.env.blob_manager)
+        # usage is OBSERVED through a second manager, so that reading it never refreshes the cache of the one under test
+        self.observer = DiskSpaceManager(self.env.config, self.env.storage, self.env.blob_manager)
         for b in blobs:
             self.add(b)
 
@@ -88,7 +90,7 @@ class Scenario:
     def clean(self):
         env = self.env
         here0 = self.present()
-        used = env.run(self.dsm.get_space_used_mb(cached=False))
+        used = env.run(self.observer.get_space_used_mb(cached=False))
         env.run(self.dsm.clean())
         here1 = self.present()
         gone = here0 - here1
@@ -139,6 +141,8 @@ def leg_c(ctx):
                         raise MachineryError(f'blobs appeared during clean: {extra}')
                     evs.append(ev)
                 else:
+                    if ctx.rng.random() < 0.5:      # the daemon's status command reads the (cached) usage between passes
+                        sc.env.run(sc.dsm.get_space_used_mb())
                     b = {'cls': ctx.rng.choice(CLS), 'size': ctx.rng.choice(SIZES), 'here': True}
                     sc.add(b)
                     evs.append({'event': 'Add', 'blob': b})
